@@ -74,6 +74,20 @@ func (ex *Exec) evalCall(e *ast.CallExpr, st *State) Value {
 					unsupported("sameEntries on nil or non-map")
 				}
 				return ex.ts.Eq(a.Val, b.Val)
+			case "forallAll":
+				fv := ex.eval(e.Args[0], st).(*FuncV)
+				sig := ex.cur().pkg.TypesInfo.Types[fv.Lit].Type.(*types.Signature)
+				pt := sig.Params().At(0).Type()
+				bs, ok := scalarSort(pt)
+				if !ok {
+					unsupported("quantified variable must be a scalar")
+				}
+				bv := ex.ts.Fresh("q."+sig.Params().At(0).Name(), bs)
+				s2 := st.fork(st.pc)
+				ex.suppress++
+				body := ex.callFunc(fv, []Value{bv}, s2, e).(*Term)
+				ex.suppress--
+				return ex.ts.Forall(bv, body)
 			case "forallRange", "existsRange":
 				return ex.callQuantRange(id.Name == "forallRange", e, st)
 			case "ite":
